@@ -126,6 +126,38 @@ def run_special(cfg, seed, limit):
     return info, None
 
 
+def run_chi2(cfg, seed):
+    """chi2_fcn's sign bookkeeping: signs[i] None -> x[i], '+' -> 10**x[i], '-' -> -10**x[i], anything else -> ValueError."""
+    import esr.fitting.test_all as ta
+    import itertools
+    rs, x, s = make_data(cfg)
+    bad = None
+    n = 0
+    for k, names in ((1, ["x"]), (2, ["1", "x"]), (3, ["1", "x", "x**2"])):
+        G = fitlib.design(x, names)
+        y = G @ rs.uniform(-3, 3, k) + s * rs.randn(len(x))
+        L = fitlib.mk_gauss(x, y, s)
+        fstr = fitlib.fstring(names)
+        fn = fitlib.lambdify_like_fit(L, fstr, k)
+        for signs in [None] + [list(t) for t in itertools.product([None, "+", "-"], repeat=k)]:
+            v = rs.uniform(-1.5, 1.5, k)
+            p = [v[i] if (signs is None or signs[i] is None) else (10 ** v[i] if signs[i] == "+" else -10 ** v[i]) for i in range(k)]
+            want = fitlib.gauss_nll(G @ np.array(p), y, s)
+            got = float(ta.chi2_fcn(list(v), L, fn, False, signs))
+            n += 1
+            if not (abs(got - want) <= 1e-9 * max(1.0, abs(want))) and bad is None:
+                bad = ("c10:chi2_fcn-signs:%s" % ("none" if signs is None else "".join(t or "0" for t in signs)),
+                       "chi2_fcn(%s, signs=%s) for %r returned %r; the NLL at parameters %s is %r" % (v.tolist(), signs, fstr, got, p, want))
+        try:
+            ta.chi2_fcn([0.1] * k, L, fn, False, ["*"] * k)
+            if bad is None:
+                bad = ("c10:chi2_fcn-signs:invalid", "chi2_fcn accepted the sign marker '*'")
+        except ValueError:
+            pass
+        n += 1
+    return {"fstr": "chi2_fcn", "n": n}, bad
+
+
 def main(p):
     import warnings
     warnings.filterwarnings("ignore")
@@ -143,6 +175,9 @@ def main(p):
             distinct.add((info["fstr"], tuple(np.sign(info["wls_theta"]).tolist()), info["log_opt"]))
             if info.get("gap", 0) > worst["gap"]:
                 worst = {"gap": info["gap"], "id": cfg["id"]}
+        elif cfg["kind"] == "chi2":
+            info, bad = run_chi2(cfg, seed)
+            distinct.add(("chi2_fcn", "sign markers", False))
         else:
             info, bad = run_special(cfg, seed, limit)
             distinct.add((info["fstr"], cfg["kind"], bool(cfg.get("log_opt"))))
